@@ -162,12 +162,13 @@ fn(WS + ".handle",
         "and emitted('sent')[0].status_code in (400, 404) and isinstance(emitted('sent')[1], EndBody) and n_emitted('puts') == 0)", "C11"),
        # C11: the first message to the application is websocket.connect
        ("C11.connect", "implies(isinstance(event, Request) and self.g_app_started, n_emitted('puts') == 1 and emitted('puts')[0]['type'] == 'websocket.connect' and n_emitted('sent') == 0)", "C11"),
+       ("C07.err-idle.ws", "implies(isinstance(event, Request) and not self.g_app_started, trace_any('sent', 'x', isinstance(x, StreamClosed)))", "C07"),
        ("C03.ws.closed-delivers-nothing", "implies(old(self.closed), n_emitted('puts') == 0 and n_emitted('sent') == 0)", "C03"),
        # C11: the disconnect code tells the application what happened
        ("C11.code", "implies(isinstance(event, StreamClosed) and not old(self.closed) and self.g_app_started, n_emitted('puts') == 1 and emitted('puts')[0]['type'] == 'websocket.disconnect' "
         "and emitted('puts')[0]['code'] == (old(self.g_remote_code) if old(self.g_remote_closed) else (1000 if old(self.state) in (ASGIWebsocketState.CLOSED, ASGIWebsocketState.HTTPCLOSED) else 1006)))", "C11"),
    ],
-   props=("C04", "C03", "C10", "C11"))
+   props=("C04", "C03", "C10", "C11", "C07"))
 
 # inlined at its call site; this entry only carries the loop invariant
 fn(WS + "._handle_events", params={}, inline=True, task="reader",
